@@ -24,6 +24,7 @@ def decode(buf, tif):
     pos = 0
     n = len(buf)
     out = []
+    pr_index = 0
     cur = None
     cur_start = None
     prev_marker = 0
@@ -65,6 +66,11 @@ def decode(buf, tif):
         succ, pred = bool(attr & 1), bool(attr & 2)
         if pred != expect_succ:
             raise LayoutError('predecessor bit %r at %d but previous successor bit %r' % (pred, pos, expect_succ))
+        if attr & (1 << 9):
+            # the record number is a 16-bit count of the physical records written so far (starting at 0, wrapping at 65536)
+            if _u16(buf, pos + ln - tail) != pr_index % 65536:
+                raise LayoutError('physical record %d carries record number %d' % (pr_index, _u16(buf, pos + ln - tail)))
+        pr_index += 1
         data = buf[pos + 4:pos + ln - tail]
         if not pred:
             cur, cur_start = data, start
